@@ -3,7 +3,7 @@ import json
 import os
 from vlib import Ctx, Inconclusive, main_wrap, pick, SPEC, log
 
-CONSTS = {"Members": '{"m1", "m2", "m3"}', "Ids": '{"m1", "m2", "m3", "zz", ""}', "AsCoded": "FALSE", "GenCanon": "FALSE"}
+CONSTS = {"Members": '{"m1", "m2", "m3"}', "Ids": '{"m1", "m2", "m3", "zz", ""}', "AsCoded": "FALSE", "GenCanon": "FALSE", "MaxFails": "0"}
 
 QUICK_N = 900
 ISO_CHUNK = 1500
@@ -12,6 +12,7 @@ QUICK_FAMS = ("route2", "probe", "sub1", "sub2", "mix", "init", "lu", "w3q", "ho
 
 GEN_CFG = """SPECIFICATION Spec
 CONSTANTS
+  MaxFails = 0
   Members = {"m1", "m2", "m3"}
   Ids = {"m1", "m2", "m3", "zz", ""}
   AsCoded = FALSE
@@ -105,6 +106,17 @@ def scenarios(ctx, scripts):
                 p["rr"] = [ids[0]]      # a poller that always answers the same member
             add("renew", p, [{"a": "select", "id": ids[0]}, {"a": "write", "n": 1}, {"a": "close"}, {"a": "renew"},
                              {"a": "select", "id": ids[1] if mode != "rr" else ids[0]}, {"a": "write", "n": 1}, {"a": "negotiationParams"}, {"a": "close"}])
+    # members whose Read fails (link gone): the others are still read and written, Close still closes every member - also when every
+    # member's reader has ended
+    for mode in ("event", "polldefault"):
+        for failing in (["m1"], ["m2", "m3"], ["m1", "m2", "m3"], ["m3", "m1", "m2"]):
+            alive = [x for x in ("m1", "m2", "m3") if x not in failing]
+            st = [{"a": "memberRead", "src": "m1", "n": 1}, {"a": "read"}] + [{"a": "memberFail", "src": x} for x in failing]
+            st += [{"a": "write", "n": 1}]
+            if alive:
+                st += [{"a": "memberRead", "src": alive[0], "n": 2}, {"a": "read"}]
+            st += [{"a": "counters"}, {"a": "close"}, {"a": "read"}]
+            add("rfail", {"members": ["m1", "m2", "m3"], "init": "m1", "mode": mode, "wait": False}, st)
     add("corner", {"members": ["m1", "m2", "m3"], "init": "m2", "mode": "event", "wait": True},
         [{"a": "memberRead", "src": "m1", "n": 1}, {"a": "memberRead", "src": "m3", "n": 2}, {"a": "select", "id": "m3"},
          {"a": "write", "n": 1}, {"a": "counters"}, {"a": "close"}, {"a": "read"}])
@@ -126,6 +138,7 @@ def run():
     ]
     # L1: exhaustive model check (all member sets x initial ids; selections incl. non-members and ""; applySel / pump interleaved)
     ctx.l1("MultiTransport", "MultiTransport_q.cfg")
+    ctx.l1("MultiTransport", "MultiTransport_fail.cfg")     # members whose Read fails: Close still closes all, reads from the others
     if not ctx.quick():
         # <=4 selections, <=3 writes, <=2 member reads / <=2 selections, 1 write, <=3 member reads
         # (the joint bound 4/3/3 has > 10^8 states: > 15 min, not part of the check)
@@ -145,7 +158,7 @@ def run():
     if ctx.quick():
         # always part of the quick tier: the fixed corners and the scenarios in which selections queue up behind a write in flight
         def fixed(s):
-            return "/corner/" in s["id"] or s["id"].startswith("C19/cerr/") or s["id"].startswith("C19/renew/") or (s["id"].startswith("C19/hold/") and s["p"]["wait"]
+            return "/corner/" in s["id"] or s["id"].startswith("C19/cerr/") or s["id"].startswith("C19/renew/") or s["id"].startswith("C19/rfail/") or (s["id"].startswith("C19/hold/") and s["p"]["wait"]
                                              and sum(1 for x in s["steps"] if x["a"] == "select") == 2)
         corners = [s for s in scs if fixed(s)]
         scs = pick([s for s in scs if not fixed(s)], QUICK_N, ctx.seed) + corners
